@@ -50,8 +50,20 @@ def _case(draw, tier):
         (3, ops.delete_op(ppool)),
         (1, ops.decoy_op(ppool, tuple(fpool))),
         (1, ops.REOPEN))
+    hist = draw(ops.history(ops.on_instances(op), 2, 30))
+    # one case in three: 'ping-pong' - the same document stored as v1 by one instance, v2 by ANOTHER instance on the same
+    # directory (another process), then v1 again by the first (per-instance memory of "what I wrote last" goes stale)
+    if draw(st.integers(0, 2)) == 0:
+        pp = {"op": "smeta", "pid": draw(st.sampled_from(ppool)), "fmt": draw(st.sampled_from(fpool)), "kind": "str", "offset": 0}
+        a, b = draw(st.sampled_from([(1, 2), (2, 1), (1, 3), (0, 1)]))
+        first = draw(st.integers(0, 1))
+        at = draw(st.integers(0, len(hist)))
+        mid = [dict(pp, d=b, inst=1 - first)]
+        if draw(st.booleans()):
+            mid.insert(draw(st.integers(0, 1)), {"op": "dmeta", "pid": pp["pid"], "fmt": pp["fmt"] or NS, "inst": 1 - first})
+        hist[at:at] = [dict(pp, d=a, inst=first)] + mid + [dict(pp, d=a, inst=first)]
     return {"cfg": cfg, "contents": [{"hex": "6f31"}, {"hex": "6f32"}], "docs": docs,
-            "ops": draw(st.lists(ops.on_instances(op), min_size=2, max_size=30)),
+            "ops": hist,
             # environment variant: a file system with coarse (1 hour) timestamp granularity
             "coarse_mtime": draw(st.sampled_from([False, False, True]))}
 
